@@ -34,7 +34,7 @@ SEEDS = [0, 1, 7, 42, 2 ** 31 - 1, 123456789]
 
 def cases(tier, seed):
     k = 130 if tier == "quick" else 5000
-    return [("compose", i) for i in range(k)] + [("structure", i) for i in range(k)] + [("reference", i) for i in range(k)] + [("reference_control", i) for i in range(k // 2)]
+    return [("compose", i) for i in range(k)] + [("structure", i) for i in range(k)] + [("reference", i) for i in range(k)] + [("reference_control", i) for i in range(k // 2)] + [("reference_int", i) for i in range(k // 2)]
 
 
 def _quantiles(rng):
@@ -123,6 +123,8 @@ def run_case(cls, key, seed, ctx):
         return run_reference(ctx, rng, MetricFrame)
     if cls == "reference_control":
         return run_reference_control(ctx, rng, MetricFrame)
+    if cls == "reference_int":
+        return run_reference_int(ctx, rng, MetricFrame)
     return run_structure(ctx, rng, MetricFrame)
 
 
@@ -280,6 +282,13 @@ def run_reference(ctx, rng, MetricFrame):
     k = int(rng.integers(2, 4))
     g = ["g%d" % i for i in gen.skewed_labels(rng, n, k)]
     nb = int(gen.pick(rng, [2, 5, 12, 30]))
+    if rng.random() < 0.3:
+        # several rare (single-row) groups and very few resamples: resamples that keep the same NUMBER of groups but not the same set
+        n = int(gen.pick(rng, [4, 5, 6, 8]))
+        n_rare = int(gen.pick(rng, [2, 3]))
+        g = ["rare%d" % i for i in range(n_rare)] + ["big"] * (n - n_rare)
+        g = [g[i] for i in rng.permutation(n)]
+        nb = int(gen.pick(rng, [2, 3, 4]))
     qs = _quantiles(rng)
     rs = int(gen.pick(rng, SEEDS + [int(rng.integers(0, 2 ** 31))]))
     ids = list(range(n))
@@ -441,3 +450,62 @@ def run_reference_control(ctx, rng, MetricFrame):
             ctx.ev("ci_values_bracketed")
             ctx.check(present and br[0] - 1e-9 <= float(bg.loc[(cv, gv), "wm"]) <= br[1] + 1e-9, "ci_value_outside_order_statistics_of_resamples:control:by_group",
                       quantile=q, cell=[cv, gv], got=repr(bg.loc[(cv, gv), "wm"]) if present else "missing", bracket=br, per_resample=st[:12], wit=wit)
+
+
+def int_metric(y_true, y_pred):
+    """an integer-valued metric: how many rows of the (sub)sample have a prediction above 2.5 (numpy integer, like count)"""
+    return int(np.sum(np.asarray(y_pred, dtype=float) > 2.5))
+
+
+def run_reference_int(ctx, rng, MetricFrame):
+    """A frame whose ONLY metric is integer valued (all-integer result dtypes): interpolated quantiles must survive.
+    The resamples are learnt from a recording frame with the same n / seed / n_boot (and confirmed on a mixed frame)."""
+    n = int(gen.pick(rng, [4, 6, 9, 14, 22]))
+    g = ["g%d" % i for i in gen.skewed_labels(rng, n, 2)]
+    nb = int(gen.pick(rng, [2, 4, 12, 30, 100]))
+    qs = [0.01, 0.99] if rng.random() < 0.6 else [0.99, 0.5, 0.01]
+    rs = int(gen.pick(rng, SEEDS + [int(rng.integers(0, 2 ** 31))]))
+    vals = np.round(rng.uniform(0.5, 5.0, size=n), 3)
+    ids = list(range(n))
+    wit = {"n": n, "groups": g, "values": vals.tolist(), "n_boot": nb, "quantiles": qs, "random_state": rs}
+    ctx.mark(["reference_int", n, sorted(pd.Series(g).value_counts().tolist()), nb, len(qs)], nb >= 2, sample=wit)
+
+    def resamples_of(metrics):
+        recs = [m for m in (metrics.values() if isinstance(metrics, dict) else [metrics]) if isinstance(m, RecordingMetric)]
+        MetricFrame(metrics=metrics, y_true=ids, y_pred=vals.tolist(), sensitive_features=g, n_boot=nb, ci_quantiles=qs, random_state=rs)
+        blocks, i, log = [], 0, recs[0].log
+        while i < len(log):
+            if len(log[i]["y_true"]) != n:
+                return None
+            rows = list(log[i]["y_true"])
+            j, tot = i + 1, 0
+            while j < len(log) and tot < n:
+                tot += len(log[j]["y_true"])
+                j += 1
+            if tot != n:
+                return None
+            blocks.append(rows)
+            i = j
+        return blocks[1:] if len(blocks) == nb + 1 else None
+    r1 = resamples_of(RecordingMetric("rec"))
+    r2 = resamples_of({"rec": RecordingMetric("rec"), "cnt": int_metric})
+    if r1 is None or r2 is None or [sorted(a) for a in r1] != [sorted(b) for b in r2]:
+        ctx.ev("resample_history_not_parsed")
+        return
+    mf = MetricFrame(metrics=int_metric, y_true=ids, y_pred=vals.tolist(), sensitive_features=g, n_boot=nb, ci_quantiles=qs, random_state=rs)
+    stats = [int_metric(None, vals[rows]) for rows in r1]
+    lo, hi = mf.overall_ci[qs.index(0.01)], mf.overall_ci[qs.index(0.99)]
+    ctx.ev("ci_values_bracketed", 2)
+    for q, v in ((0.01, lo), (0.99, hi)):
+        br = _bracket(stats, q)
+        ctx.check(br[0] - 1e-9 <= float(v) <= br[1] + 1e-9, "ci_value_outside_order_statistics_of_resamples:overall:integer_metric", quantile=q, got=repr(v),
+                  bracket=br, per_resample=stats[:16], wit=wit)
+    mean = float(np.mean(stats))
+    if 2 <= nb <= 100:
+        # the property: a wide pair encloses an interval around the resampling mean (for (0.01, 0.99) and n_boot <= 100 this
+        # holds for every sample under the usual linear interpolation)
+        ctx.ev("mean_enclosure_checks")
+        ctx.check(float(lo) - 1e-9 <= mean <= float(hi) + 1e-9, "wide_quantile_pair_does_not_enclose_the_resampling_mean:integer_metric", lo=repr(lo), hi=repr(hi),
+                  resampling_mean=mean, per_resample=stats[:16], wit=wit)
+        if len(set(stats)) > 1:
+            ctx.check(float(hi) > float(lo), "wide_quantile_pair_has_zero_width_on_varying_data:integer_metric", lo=repr(lo), hi=repr(hi), per_resample=stats[:16], wit=wit)
